@@ -82,6 +82,11 @@ CHECKS = {
    text="2-4 session tasks run generated explicit transactions (INSERT/UPDATE/DELETE/SELECT, COMMIT or ROLLBACK, SAVEPOINT + ROLLBACK TO SAVEPOINT) over one table, plus an observer outside any transaction. A reference interpreter replays the committed transactions serially in commit order: every in-transaction SELECT must equal interpreter(state before the transaction + own earlier statements), affected-row counts must match, the final table must equal the serial execution (rolled back and failed transactions leave no trace), the observer only ever sees states after a prefix of the committed transactions, and transactions that did not commit saw a committed state plus their own changes.",
    note="Engine API only: the server-side session transaction manager and the PostgreSQL wire front-end are not driven. DDL inside transactions and RELEASE SAVEPOINT are not generated.",
    technique="deterministic simulation: seeded concurrent session programs vs reference interpreter, serial replay in commit order"),
+ "C19": dict(
+   level="exploration", design="DESIGN.md §7 C19",
+   text="document.Engine over the simulated store: a writer task inserts, replaces and deletes documents (nested JSON, lists, unicode, missing numeric field) in twin collections — one with indexes on the queried fields and a unique index, one without — while the indexers lag by arbitrary amounts and index flush/compaction and restarts are interleaved; duplicates for the unique field are attempted. Oracle after the workload and after restart, against an in-memory list of the documents: id lookup and searches (comparisons, AND / OR groups, nested path) return exactly the stored documents that satisfy the filter with all fields unchanged, counts agree, the twins answer identically (index independence), the unique index admits no duplicate, the audit trail lists every revision in order.",
+   note="ProofDocument/VerifyDocument (pkg/database + pkg/verification), ordering/paging, AddField/RemoveField and index creation/removal over time are not driven yet.",
+   technique="deterministic simulation: seeded document histories under indexer lag/restarts vs in-memory JSON list, twin collections"),
 }
 
 NOT_APPLICABLE = [
@@ -113,7 +118,7 @@ def main():
     na = [n for n in NOT_APPLICABLE]
     for p in props:
         if p not in claimed and p not in {n["property_id"] for n in na}:
-            na.append(dict(property_id=p, reason="not claimed yet: the simulation harness for this property is not built (work in progress, see DESIGN.md)"))
+            na.append(dict(property_id=p, reason="not claimed: in scope for simulation (session expiry by simulated clock, permission changes racing with requests) and designed in DESIGN.md §7, but the server harness (direct dispatch of every RPC through the interceptor chain) was not built in the time available; no check exists, so nothing is claimed"))
     m = {
         "version": 1,
         "setup_cmd": "./verif build",
